@@ -68,256 +68,284 @@ def run(ctx):
     # ------------------------------------------------------------------ C12-keywords
     ctx.rule("C12-keywords", "the parser maps only/except/prefix/rename to the constructors of the same name, "
                              "anything else to a library name")
-    tis = fb.find("parser::parser::Parser::transform_import_set")
-    tests = {lit: (b, tt, ft) for b, lit, tt, ft in mir.string_tests(tis)}
-    for kw, variant in KEYWORDS.items():
-        if kw not in tests:
-            ctx.report("C12-keywords", kw, "keyword %r is not tested by the import-set parser" % kw, where_of(tis))
-            continue
-        b, tt, ft = tests[kw]
-        region = mir.dominated_region(tis, tt)
-        built = sorted({v for _, _, _, _, v in mir.aggregates(tis, region, "ImportSetBody")})
-        ctx.inst("C12-keywords", kw, {"constructs": built})
-        if built != [variant]:
-            ctx.report("C12-keywords", kw, "keyword %r constructs %s, expected [%s]" % (kw, built, variant), where_of(tis))
-    extra = [k for k in tests if k not in KEYWORDS]
-    if extra:
-        ctx.note("additional import keywords tested: %s" % extra)
-    # the fall-through builds Direct
-    allv = {v for _, _, _, _, v in mir.aggregates(tis, None, "ImportSetBody")}
-    if "Direct" not in allv:
-        ctx.report("C12-keywords", "direct", "no ImportSetBody::Direct is built", where_of(tis))
-    # field order inside each constructor: .0 = sub import set (Box), .1 = payload
-    for b, i, s, adt, v in mir.aggregates(tis, None, "ImportSetBody"):
-        if v in ("Only", "Except", "Prefix", "Rename"):
-            p = Prov(tis)
-            r0 = {c for _, c in p.call_roots(s["rv"]["ops"][0])}
-            ok0 = any((c or "").endswith("transform_import_set") for c in r0)
-            ctx.inst("C12-keywords", "%s/field0" % v, {"roots": sorted(x for x in r0 if x)[:4]})
-            if not ok0:
-                ctx.report("C12-keywords", "%s/field0" % v, "the sub import set of %s does not come from the recursive "
-                           "parse" % v, where_of(tis))
+    from . import importtables as _it
+    d_kw = _it.rule_keywords(ctx, "C12-keywords")
 
-    # ------------------------------------------------------------------ arms of eval_import_set
-    eis = fb.find("interpreter::interpreter::Interpreter::eval_import_set")
-    sws = list(mir.discriminant_switches(eis, "ImportSetBody"))
-    if not sws:
-        raise mir.AnchorMissing("eval_import_set does not dispatch on ImportSetBody")
-    sb, place, adt, targets, other = sws[0]
-    vidx = dict((n, i) for i, n in fb.variants("ImportSetBody"))
-    arms = {}
-    for name, i in vidx.items():
-        tgt = targets.get(i, other)
-        arms[name] = mir.dominated_region(eis, tgt)
-    closures = {c.name: c for c in fb.closures_of(eis)}
+    def _old_keywords():
+        tis = fb.find("parser::parser::Parser::transform_import_set")
+        tests = {lit: (b, tt, ft) for b, lit, tt, ft in mir.string_tests(tis)}
+        for kw, variant in KEYWORDS.items():
+            if kw not in tests:
+                ctx.report("C12-keywords", kw, "keyword %r is not tested by the import-set parser" % kw, where_of(tis))
+                continue
+            b, tt, ft = tests[kw]
+            region = mir.dominated_region(tis, tt)
+            built = sorted({v for _, _, _, _, v in mir.aggregates(tis, region, "ImportSetBody")})
+            ctx.inst("C12-keywords", kw, {"constructs": built})
+            if built != [variant]:
+                ctx.report("C12-keywords", kw, "keyword %r constructs %s, expected [%s]" % (kw, built, variant), where_of(tis))
+        extra = [k for k in tests if k not in KEYWORDS]
+        if extra:
+            ctx.note("additional import keywords tested: %s" % extra)
+        # the fall-through builds Direct
+        allv = {v for _, _, _, _, v in mir.aggregates(tis, None, "ImportSetBody")}
+        if "Direct" not in allv:
+            ctx.report("C12-keywords", "direct", "no ImportSetBody::Direct is built", where_of(tis))
+        # field order inside each constructor: .0 = sub import set (Box), .1 = payload
+        for b, i, s, adt, v in mir.aggregates(tis, None, "ImportSetBody"):
+            if v in ("Only", "Except", "Prefix", "Rename"):
+                p = Prov(tis)
+                r0 = {c for _, c in p.call_roots(s["rv"]["ops"][0])}
+                ok0 = any((c or "").endswith("transform_import_set") for c in r0)
+                ctx.inst("C12-keywords", "%s/field0" % v, {"roots": sorted(x for x in r0 if x)[:4]})
+                if not ok0:
+                    ctx.report("C12-keywords", "%s/field0" % v, "the sub import set of %s does not come from the recursive "
+                               "parse" % v, where_of(tis))
 
-    def arm_closures(name, via):
-        """closures built in the arm and handed to Iterator::<via>."""
-        out = []
-        for b, i, s in eis.stmts(arms[name]):
-            if s["k"] == "assign" and s["rv"]["k"] == "aggregate" and s["rv"]["kind"]["k"] == "closure":
-                cn = mir.norm(s["rv"]["kind"]["def"])
-                dst = s["place"]["local"]
-                for bb, t in eis.calls(arms[name]):
-                    if callee_matches(t, "std::iter::Iterator::" + via) and any(mir.op_local(a) == dst for a in t["args"]):
-                        out.append((closures[cn], s, t))
-        return out
+    ctx.guarded("C12-keywords", d_kw >= 5, _old_keywords)
 
-    def recursion_in(name):
-        return [(b, t) for b, t in eis.calls(arms[name]) if callee(t) == eis.name]
-
-    # ------------------------------------------------------------------ C12-polarity
+    # ------------------------------------------------------------------ import-set algebra (decision tables, importtables.py)
     ctx.rule("C12-polarity", "`only` keeps and `except` drops the listed names; membership is tested on the binding's "
                              "name against the operator's own identifier list")
-    for name, want in (("Only", True), ("Except", False)):
-        cl = arm_closures(name, "filter")
-        if len(cl) != 1 or len(recursion_in(name)) != 1:
-            ctx.report("C12-polarity", name + "/shape", "shape not recognised: %d filter closure(s), %d recursive call(s)"
-                       % (len(cl), len(recursion_in(name))), where_of(eis))
-            continue
-        c, s, t = cl[0]
-        src = bool_source(c, 0)
-        ctx.inst("C12-polarity", name, {"closure": c.name, "source": callee(src[0]) if src else None,
-                                        "keeps_members": src[1] if src else None})
-        if not src or not callee_matches(src[0], "HashSet::contains", "contains", "HashMap::contains_key"):
-            ctx.report("C12-polarity", name + "/shape", "filter predicate shape not recognised", where_of(c))
-            continue
-        if src[1] != want:
-            ctx.report("C12-polarity", name + "/polarity", "%s %s the listed names" % (
-                name.lower(), "keeps" if src[1] else "drops"), where_of(c))
-        # tested key = name component (.0) of the item
-        key = src[0]["args"][1]
-        s_key, _ = mir.trace_place(c, key)
-        if not s_key.endswith(".0"):
-            ctx.report("C12-polarity", name + "/key", "membership is tested on %s, not on the binding's name" % s_key,
-                       where_of(c))
-        # the set is the closure's capture, which derives from this variant's identifier list (.1)
-        p = Prov(eis)
-        cap = s["rv"]["ops"][0] if s["rv"]["ops"] else None
-        ok = False
-        if cap is not None:
-            reach = p.taint_reach(mir.op_local(cap))
-            for bb, ii, ss in eis.stmts(arms[name]):
-                if ss["k"] == "assign" and ss["place"]["local"] in reach and ss["rv"]["k"] == "ref":
-                    pr = ss["rv"]["place"]["proj"]
-                    if any(e["k"] == "downcast" and e.get("variant") == name for e in pr) and \
-                            any(e["k"] == "field" and e["i"] == 1 for e in pr):
-                        ok = True
-        if not ok:
-            ctx.report("C12-polarity", name + "/set", "the membership set does not derive from the identifier list of "
-                       "the %s term" % name.lower(), where_of(eis, t))
-        # filter is applied to the recursive result
-        recv = p.call_roots(t["args"][0])
-        if not any(cn == eis.name for _, cn in recv):
-            ctx.report("C12-polarity", name + "/input", "filter is not applied to the recursive result", where_of(eis, t))
-
-    # ------------------------------------------------------------------ C12-prefix
-    ctx.rule("C12-prefix", "prefix precedes the name: format!(\"{}{}\", prefix, name)")
-    cl = arm_closures("Prefix", "map")
-    if len(cl) != 1 or len(recursion_in("Prefix")) != 1:
-        ctx.report("C12-prefix", "shape", "shape not recognised: %d map closure(s)" % len(cl), where_of(eis))
-    else:
-        c, s, t = cl[0]
-        fcs = list(mir.format_calls(c))
-        concat = [(b, tt) for b, tt in c.calls() if callee_matches(tt, "String::push_str", "std::ops::Add>::add", "concat")]
-        if len(fcs) == 1 and fcs[0][2] is not None:
-            _, _, pieces, kinds, ops = fcs[0]
-            lits = [p for p in pieces if isinstance(p, str)]
-            args = [p for p in pieces if not isinstance(p, str)]
-            srcs = [mir.trace_place(c, ops[a[1]])[0] for a in args]
-            ctx.inst("C12-prefix", "template", {"pieces": ["{}" if not isinstance(p, str) else p for p in pieces], "args": srcs})
-            if lits or len(args) != 2:
-                ctx.report("C12-prefix", "template", "prefix template is %r" % (pieces,), where_of(c))
-            else:
-                a0 = mir.trace_access(c, ops[args[0][1]])
-                a1 = mir.trace_access(c, ops[args[1][1]])
-                ctx.inst("C12-prefix", "args", {"first": a0, "second": a1})
-                # parameter 1 = closure environment (captured prefix), parameter 2 = the (name, value) item
-                if not (a0[0] == 1 and a1[0] == 2 and a1[1][:1] == [0]):
-                    ctx.report("C12-prefix", "order", "the new name is not prefix followed by name (placeholders fed "
-                               "from %s, %s)" % (srcs[0], srcs[1]), where_of(c))
-        elif concat:
-            ctx.report("C12-prefix", "shape", "string concatenation shape not recognised (fail closed)", where_of(c))
-        else:
-            ctx.report("C12-prefix", "shape", "no format!/concatenation found in the prefix closure", where_of(c))
-        _values_untouched(ctx, c, "Prefix")
-
-    # ------------------------------------------------------------------ C12-rename-simultaneous
-    ctx.rule("C12-rename-simultaneous", "one map old->new, one lookup keyed by the incoming name per binding")
-    cl = arm_closures("Rename", "map")
-    rec = recursion_in("Rename")
-    if len(rec) != 1:
-        ctx.report("C12-rename-simultaneous", "shape", "expected one recursive call in the rename arm", where_of(eis))
-    arm_loops = eis.loop_blocks() & arms["Rename"]
-    if arm_loops:
-        ctx.report("C12-rename-simultaneous", "loop", "the rename arm loops over the renames (sequential application?) "
-                   "blocks %s" % sorted(arm_loops), where_of(eis))
-    folds = [t for b, t in eis.calls(arms["Rename"]) if callee_matches(t, "Iterator::fold", "Iterator::try_fold",
-                                                                       "Iterator::for_each", "Iterator::scan")]
-    if folds:
-        ctx.report("C12-rename-simultaneous", "fold", "the rename arm folds over the rename list", where_of(eis, folds[0]))
-    builder = None
-    lookup = None
-    for c, s, t in cl:
-        gets = [(b, tt) for b, tt in c.calls() if callee_matches(tt, "HashMap::get", "BTreeMap::get")]
-        if gets:
-            lookup = (c, s, t, gets)
-        else:
-            builder = (c, s, t)
-    if not lookup:
-        ctx.report("C12-rename-simultaneous", "lookup", "no map lookup found in the rename arm (shape not recognised)",
-                   where_of(eis))
-    else:
-        c, s, t, gets = lookup
-        if len(gets) != 1:
-            ctx.report("C12-rename-simultaneous", "lookup", "expected one lookup per binding, found %d" % len(gets), where_of(c))
-        key = gets[0][1]["args"][1]
-        pc = Prov(c)
-        reach = pc.reach_locals(mir.op_local(key))
-        name_like = any(st["k"] == "assign" and st["place"]["local"] in reach and
-                        any(pp["local"] == 2 and any(e["k"] == "field" and e["i"] == 0 for e in pp["proj"])
-                            for pp in mir.rv_places(st["rv"])) for _, _, st in c.stmts())
-        ctx.inst("C12-rename-simultaneous", "lookup", {"closure": c.name, "key_from_incoming_name": name_like})
-        if not name_like:
-            ctx.report("C12-rename-simultaneous", "key", "the rename lookup is not keyed by the incoming name", where_of(c))
-        # Some-arm: new name derives from the lookup result; None-arm: from the incoming name
-        sw = mir.result_switch_after(c, gets[0][0])
-        if sw:
-            some_t, none_t = sw[1].get(1, sw[2]), sw[1].get(0, sw[2])
-            for label, tgt, want_lookup in (("some", some_t, True), ("none", none_t, False)):
-                region = mir.dominated_region(c, tgt)
-                for b, i, st in c.stmts(region):
-                    if st["k"] == "assign" and st["place"]["local"] == 0 and st["rv"]["k"] == "aggregate":
-                        r = pc.op_roots(st["rv"]["ops"][0])
-                        from_lookup = any(x[0] == "call" and (x[2] or "").endswith("::get") for x in r)
-                        ctx.inst("C12-rename-simultaneous", label + "-arm", {"name_from_lookup": from_lookup})
-                        if from_lookup != want_lookup:
-                            ctx.report("C12-rename-simultaneous", label + "-arm", "in the %s arm the new name %s from "
-                                       "the rename table" % (label, "derives" if from_lookup else "does not derive"), where_of(c))
-        else:
-            ctx.report("C12-rename-simultaneous", "lookup", "lookup result is not matched", where_of(c))
-        _values_untouched(ctx, c, "Rename")
-    if builder:
-        c, s, t = builder
-        # (from, to) orientation: tuple(.0, .1)
-        for b, i, st in c.stmts():
-            if st["k"] == "assign" and st["place"]["local"] == 0 and st["rv"]["k"] == "aggregate":
-                f0 = field_of_arg(c, st["rv"]["ops"][0], 2)
-                f1 = field_of_arg(c, st["rv"]["ops"][1], 2)
-                ctx.inst("C12-rename-simultaneous", "builder", {"key_field": f0, "value_field": f1})
-                if (f0, f1) != (0, 1):
-                    ctx.report("C12-rename-simultaneous", "builder", "the rename table maps field %s to field %s of each "
-                               "(old new) pair, expected old->new" % (f0, f1), where_of(c))
-    elif lookup:
-        ctx.note("rename table built without a closure (direct collect)")
-
-    # ------------------------------------------------------------------ C12-values-untouched (Direct arm)
+    ctx.rule("C12-prefix", "prefix precedes the name")
+    ctx.rule("C12-rename-simultaneous", "renames are applied simultaneously: one lookup keyed by the incoming name per binding")
     ctx.rule("C12-values-untouched", "each name keeps the value the library exports under the original name")
-    cl = arm_closures("Direct", "map")
-    for c, s, t in cl:
-        _values_untouched(ctx, c, "Direct")
-    if not cl:
-        ctx.note("Direct arm copies bindings without a closure")
-
-    # ------------------------------------------------------------------ C12-union
+    ctx.rule("C12-nesting", "nested import sets compose: the outer operator sees exactly what the inner one yields")
     ctx.rule("C12-union", "several import sets contribute their union; every resulting binding is defined in the "
-                          "target environment")
-    ei = fb.find("interpreter::interpreter::Interpreter::eval_import")
-    loops = ei.loop_blocks()
-    calls = [(b, t) for b, t in ei.calls() if callee(t) == eis.name]
-    ext = [(b, t) for b, t in ei.calls() if callee_matches(t, "std::iter::Extend>::extend", "HashMap::insert")]
-    defs = [(b, t) for b, t in ei.calls() if callee_matches(t, "LexicalScope::define")]
-    ctx.inst("C12-union", "eval_import", {"eval_import_set_calls": len(calls), "extend": len(ext), "define": len(defs)})
-    if len(calls) != 1 or calls[0][0] not in loops:
-        ctx.report("C12-union", "loop", "eval_import does not evaluate every import set in a loop", where_of(ei))
-    if not defs or any(b not in loops for b, _ in defs):
-        ctx.report("C12-union", "define", "bindings are not defined one by one in a loop", where_of(ei))
-    else:
-        p = Prov(ei)
-        for b, t in defs:
-            # environment = parameter 3 (env); name/value from the merged map which derives from eval_import_set
-            if 3 not in p.arg_roots(t["args"][0]):
-                ctx.report("C12-union", "target", "bindings are defined in an environment other than the `env` argument",
-                           where_of(ei, t))
-            for k in (1, 2):
-                if eis.name not in p.taint_calls(mir.op_local(t["args"][k])):
-                    ctx.report("C12-union", "source", "defined %s does not derive from the evaluated import sets" % (
-                        "name" if k == 1 else "value"), where_of(ei, t))
-            s1, _ = mir.trace_place(ei, t["args"][1])
-            s2, _ = mir.trace_place(ei, t["args"][2])
-            ctx.inst("C12-union", "define-args", {"name": s1, "value": s2})
-            if not (s1.endswith(".0") and s2.endswith(".1")):
-                ctx.report("C12-union", "pair-order", "define(name, value) is fed from %s / %s" % (s1, s2), where_of(ei, t))
-    # every failing set aborts the import (`?`), nothing is defined before all sets are evaluated
-    if calls and defs:
-        dom = ei.dominators()
-        loop_exit_ok = True
-        for b, t in defs:
-            # the define loop must not be able to reach the evaluation loop again
-            if calls[0][0] in ei.reachable(b):
-                loop_exit_ok = False
-        if not loop_exit_ok:
-            ctx.report("C12-union", "atomic", "definitions start before all import sets are evaluated", where_of(ei))
+                          "target environment; a failing set defines nothing")
+    from . import importtables
+    d_alg = importtables.rule_algebra(ctx, {"only": "C12-polarity", "except": "C12-polarity", "prefix": "C12-prefix",
+                                            "rename": "C12-rename-simultaneous", "values": "C12-values-untouched", "nested": "C12-nesting",
+                                            "default": "C12-values-untouched"})
+    d_uni = importtables.rule_union(ctx, "C12-union")
+
+    def _old_arms():
+        # ------------------------------------------------------------------ arms of eval_import_set
+        eis = fb.find("interpreter::interpreter::Interpreter::eval_import_set")
+        sws = list(mir.discriminant_switches(eis, "ImportSetBody"))
+        if not sws:
+            raise mir.AnchorMissing("eval_import_set does not dispatch on ImportSetBody")
+        sb, place, adt, targets, other = sws[0]
+        vidx = dict((n, i) for i, n in fb.variants("ImportSetBody"))
+        arms = {}
+        for name, i in vidx.items():
+            tgt = targets.get(i, other)
+            arms[name] = mir.dominated_region(eis, tgt)
+        closures = {c.name: c for c in fb.closures_of(eis)}
+
+        def arm_closures(name, via):
+            """closures built in the arm and handed to Iterator::<via>."""
+            out = []
+            for b, i, s in eis.stmts(arms[name]):
+                if s["k"] == "assign" and s["rv"]["k"] == "aggregate" and s["rv"]["kind"]["k"] == "closure":
+                    cn = mir.norm(s["rv"]["kind"]["def"])
+                    dst = s["place"]["local"]
+                    for bb, t in eis.calls(arms[name]):
+                        if callee_matches(t, "std::iter::Iterator::" + via) and any(mir.op_local(a) == dst for a in t["args"]):
+                            out.append((closures[cn], s, t))
+            return out
+
+        def recursion_in(name):
+            return [(b, t) for b, t in eis.calls(arms[name]) if callee(t) == eis.name]
+
+        # ------------------------------------------------------------------ C12-polarity
+        ctx.rule("C12-polarity", "`only` keeps and `except` drops the listed names; membership is tested on the binding's "
+                                 "name against the operator's own identifier list")
+        for name, want in (("Only", True), ("Except", False)):
+            cl = arm_closures(name, "filter")
+            if len(cl) != 1 or len(recursion_in(name)) != 1:
+                ctx.report("C12-polarity", name + "/shape", "shape not recognised: %d filter closure(s), %d recursive call(s)"
+                           % (len(cl), len(recursion_in(name))), where_of(eis))
+                continue
+            c, s, t = cl[0]
+            src = bool_source(c, 0)
+            ctx.inst("C12-polarity", name, {"closure": c.name, "source": callee(src[0]) if src else None,
+                                            "keeps_members": src[1] if src else None})
+            if not src or not callee_matches(src[0], "HashSet::contains", "contains", "HashMap::contains_key"):
+                ctx.report("C12-polarity", name + "/shape", "filter predicate shape not recognised", where_of(c))
+                continue
+            if src[1] != want:
+                ctx.report("C12-polarity", name + "/polarity", "%s %s the listed names" % (
+                    name.lower(), "keeps" if src[1] else "drops"), where_of(c))
+            # tested key = name component (.0) of the item
+            key = src[0]["args"][1]
+            s_key, _ = mir.trace_place(c, key)
+            if not s_key.endswith(".0"):
+                ctx.report("C12-polarity", name + "/key", "membership is tested on %s, not on the binding's name" % s_key,
+                           where_of(c))
+            # the set is the closure's capture, which derives from this variant's identifier list (.1)
+            p = Prov(eis)
+            cap = s["rv"]["ops"][0] if s["rv"]["ops"] else None
+            ok = False
+            if cap is not None:
+                reach = p.taint_reach(mir.op_local(cap))
+                for bb, ii, ss in eis.stmts(arms[name]):
+                    if ss["k"] == "assign" and ss["place"]["local"] in reach and ss["rv"]["k"] == "ref":
+                        pr = ss["rv"]["place"]["proj"]
+                        if any(e["k"] == "downcast" and e.get("variant") == name for e in pr) and \
+                                any(e["k"] == "field" and e["i"] == 1 for e in pr):
+                            ok = True
+            if not ok:
+                ctx.report("C12-polarity", name + "/set", "the membership set does not derive from the identifier list of "
+                           "the %s term" % name.lower(), where_of(eis, t))
+            # filter is applied to the recursive result
+            recv = p.call_roots(t["args"][0])
+            if not any(cn == eis.name for _, cn in recv):
+                ctx.report("C12-polarity", name + "/input", "filter is not applied to the recursive result", where_of(eis, t))
+
+        # ------------------------------------------------------------------ C12-prefix
+        ctx.rule("C12-prefix", "prefix precedes the name: format!(\"{}{}\", prefix, name)")
+        cl = arm_closures("Prefix", "map")
+        if len(cl) != 1 or len(recursion_in("Prefix")) != 1:
+            ctx.report("C12-prefix", "shape", "shape not recognised: %d map closure(s)" % len(cl), where_of(eis))
+        else:
+            c, s, t = cl[0]
+            fcs = list(mir.format_calls(c))
+            concat = [(b, tt) for b, tt in c.calls() if callee_matches(tt, "String::push_str", "std::ops::Add>::add", "concat")]
+            if len(fcs) == 1 and fcs[0][2] is not None:
+                _, _, pieces, kinds, ops = fcs[0]
+                lits = [p for p in pieces if isinstance(p, str)]
+                args = [p for p in pieces if not isinstance(p, str)]
+                srcs = [mir.trace_place(c, ops[a[1]])[0] for a in args]
+                ctx.inst("C12-prefix", "template", {"pieces": ["{}" if not isinstance(p, str) else p for p in pieces], "args": srcs})
+                if lits or len(args) != 2:
+                    ctx.report("C12-prefix", "template", "prefix template is %r" % (pieces,), where_of(c))
+                else:
+                    a0 = mir.trace_access(c, ops[args[0][1]])
+                    a1 = mir.trace_access(c, ops[args[1][1]])
+                    ctx.inst("C12-prefix", "args", {"first": a0, "second": a1})
+                    # parameter 1 = closure environment (captured prefix), parameter 2 = the (name, value) item
+                    if not (a0[0] == 1 and a1[0] == 2 and a1[1][:1] == [0]):
+                        ctx.report("C12-prefix", "order", "the new name is not prefix followed by name (placeholders fed "
+                                   "from %s, %s)" % (srcs[0], srcs[1]), where_of(c))
+            elif concat:
+                ctx.report("C12-prefix", "shape", "string concatenation shape not recognised (fail closed)", where_of(c))
+            else:
+                ctx.report("C12-prefix", "shape", "no format!/concatenation found in the prefix closure", where_of(c))
+            _values_untouched(ctx, c, "Prefix")
+
+        # ------------------------------------------------------------------ C12-rename-simultaneous
+        ctx.rule("C12-rename-simultaneous", "one map old->new, one lookup keyed by the incoming name per binding")
+        cl = arm_closures("Rename", "map")
+        rec = recursion_in("Rename")
+        if len(rec) != 1:
+            ctx.report("C12-rename-simultaneous", "shape", "expected one recursive call in the rename arm", where_of(eis))
+        arm_loops = eis.loop_blocks() & arms["Rename"]
+        if arm_loops:
+            ctx.report("C12-rename-simultaneous", "loop", "the rename arm loops over the renames (sequential application?) "
+                       "blocks %s" % sorted(arm_loops), where_of(eis))
+        folds = [t for b, t in eis.calls(arms["Rename"]) if callee_matches(t, "Iterator::fold", "Iterator::try_fold",
+                                                                           "Iterator::for_each", "Iterator::scan")]
+        if folds:
+            ctx.report("C12-rename-simultaneous", "fold", "the rename arm folds over the rename list", where_of(eis, folds[0]))
+        builder = None
+        lookup = None
+        for c, s, t in cl:
+            gets = [(b, tt) for b, tt in c.calls() if callee_matches(tt, "HashMap::get", "BTreeMap::get")]
+            if gets:
+                lookup = (c, s, t, gets)
+            else:
+                builder = (c, s, t)
+        if not lookup:
+            ctx.report("C12-rename-simultaneous", "lookup", "no map lookup found in the rename arm (shape not recognised)",
+                       where_of(eis))
+        else:
+            c, s, t, gets = lookup
+            if len(gets) != 1:
+                ctx.report("C12-rename-simultaneous", "lookup", "expected one lookup per binding, found %d" % len(gets), where_of(c))
+            key = gets[0][1]["args"][1]
+            pc = Prov(c)
+            reach = pc.reach_locals(mir.op_local(key))
+            name_like = any(st["k"] == "assign" and st["place"]["local"] in reach and
+                            any(pp["local"] == 2 and any(e["k"] == "field" and e["i"] == 0 for e in pp["proj"])
+                                for pp in mir.rv_places(st["rv"])) for _, _, st in c.stmts())
+            ctx.inst("C12-rename-simultaneous", "lookup", {"closure": c.name, "key_from_incoming_name": name_like})
+            if not name_like:
+                ctx.report("C12-rename-simultaneous", "key", "the rename lookup is not keyed by the incoming name", where_of(c))
+            # Some-arm: new name derives from the lookup result; None-arm: from the incoming name
+            sw = mir.result_switch_after(c, gets[0][0])
+            if sw:
+                some_t, none_t = sw[1].get(1, sw[2]), sw[1].get(0, sw[2])
+                for label, tgt, want_lookup in (("some", some_t, True), ("none", none_t, False)):
+                    region = mir.dominated_region(c, tgt)
+                    for b, i, st in c.stmts(region):
+                        if st["k"] == "assign" and st["place"]["local"] == 0 and st["rv"]["k"] == "aggregate":
+                            r = pc.op_roots(st["rv"]["ops"][0])
+                            from_lookup = any(x[0] == "call" and (x[2] or "").endswith("::get") for x in r)
+                            ctx.inst("C12-rename-simultaneous", label + "-arm", {"name_from_lookup": from_lookup})
+                            if from_lookup != want_lookup:
+                                ctx.report("C12-rename-simultaneous", label + "-arm", "in the %s arm the new name %s from "
+                                           "the rename table" % (label, "derives" if from_lookup else "does not derive"), where_of(c))
+            else:
+                ctx.report("C12-rename-simultaneous", "lookup", "lookup result is not matched", where_of(c))
+            _values_untouched(ctx, c, "Rename")
+        if builder:
+            c, s, t = builder
+            # (from, to) orientation: tuple(.0, .1)
+            for b, i, st in c.stmts():
+                if st["k"] == "assign" and st["place"]["local"] == 0 and st["rv"]["k"] == "aggregate":
+                    f0 = field_of_arg(c, st["rv"]["ops"][0], 2)
+                    f1 = field_of_arg(c, st["rv"]["ops"][1], 2)
+                    ctx.inst("C12-rename-simultaneous", "builder", {"key_field": f0, "value_field": f1})
+                    if (f0, f1) != (0, 1):
+                        ctx.report("C12-rename-simultaneous", "builder", "the rename table maps field %s to field %s of each "
+                                   "(old new) pair, expected old->new" % (f0, f1), where_of(c))
+        elif lookup:
+            ctx.note("rename table built without a closure (direct collect)")
+
+        # ------------------------------------------------------------------ C12-values-untouched (Direct arm)
+        ctx.rule("C12-values-untouched", "each name keeps the value the library exports under the original name")
+        cl = arm_closures("Direct", "map")
+        for c, s, t in cl:
+            _values_untouched(ctx, c, "Direct")
+        if not cl:
+            ctx.note("Direct arm copies bindings without a closure")
+
+    ctx.guarded("C12-polarity", d_alg >= 41, _old_arms)
+
+    def _old_union():
+        eis = fb.find("interpreter::interpreter::Interpreter::eval_import_set")
+        # ------------------------------------------------------------------ C12-union
+        ctx.rule("C12-union", "several import sets contribute their union; every resulting binding is defined in the "
+                              "target environment")
+        ei = fb.find("interpreter::interpreter::Interpreter::eval_import")
+        loops = ei.loop_blocks()
+        calls = [(b, t) for b, t in ei.calls() if callee(t) == eis.name]
+        ext = [(b, t) for b, t in ei.calls() if callee_matches(t, "std::iter::Extend>::extend", "HashMap::insert")]
+        defs = [(b, t) for b, t in ei.calls() if callee_matches(t, "LexicalScope::define")]
+        ctx.inst("C12-union", "eval_import", {"eval_import_set_calls": len(calls), "extend": len(ext), "define": len(defs)})
+        if len(calls) != 1 or calls[0][0] not in loops:
+            ctx.report("C12-union", "loop", "eval_import does not evaluate every import set in a loop", where_of(ei))
+        if not defs or any(b not in loops for b, _ in defs):
+            ctx.report("C12-union", "define", "bindings are not defined one by one in a loop", where_of(ei))
+        else:
+            p = Prov(ei)
+            for b, t in defs:
+                # environment = parameter 3 (env); name/value from the merged map which derives from eval_import_set
+                if 3 not in p.arg_roots(t["args"][0]):
+                    ctx.report("C12-union", "target", "bindings are defined in an environment other than the `env` argument",
+                               where_of(ei, t))
+                for k in (1, 2):
+                    if eis.name not in p.taint_calls(mir.op_local(t["args"][k])):
+                        ctx.report("C12-union", "source", "defined %s does not derive from the evaluated import sets" % (
+                            "name" if k == 1 else "value"), where_of(ei, t))
+                s1, _ = mir.trace_place(ei, t["args"][1])
+                s2, _ = mir.trace_place(ei, t["args"][2])
+                ctx.inst("C12-union", "define-args", {"name": s1, "value": s2})
+                if not (s1.endswith(".0") and s2.endswith(".1")):
+                    ctx.report("C12-union", "pair-order", "define(name, value) is fed from %s / %s" % (s1, s2), where_of(ei, t))
+        # every failing set aborts the import (`?`), nothing is defined before all sets are evaluated
+        if calls and defs:
+            dom = ei.dominators()
+            loop_exit_ok = True
+            for b, t in defs:
+                # the define loop must not be able to reach the evaluation loop again
+                if calls[0][0] in ei.reachable(b):
+                    loop_exit_ok = False
+            if not loop_exit_ok:
+                ctx.report("C12-union", "atomic", "definitions start before all import sets are evaluated", where_of(ei))
+
+    ctx.guarded("C12-union", d_uni >= 3, _old_union)
 
     # ------------------------------------------------------------------ C12-deterministic
     ctx.rule("C12-deterministic", "hash-iteration order reaches only order-insensitive sinks")
@@ -339,6 +367,14 @@ def run(ctx):
         "parser::macros::<impl error::Located<parser::macros::SyntaxPatternBody>>::match_datum_stream":
             "per-variable push keyed by the variable (distinct keys)",
     }
+    import json as _json, os as _os
+    try:
+        known_fns = set(_json.load(open(_os.path.join(_os.path.dirname(_os.path.dirname(_os.path.abspath(__file__))), "c07_baseline.json"))).get("functions", []))
+    except Exception:
+        known_fns = set()
+    ei = fb.find("interpreter::interpreter::Interpreter::eval_import")
+    eis = fb.find("interpreter::interpreter::Interpreter::eval_import_set")
+    ext = [(b, t) for g in [ei] + fb.closures_of(ei) for b, t in g.calls() if callee_matches(t, "std::iter::Extend>::extend", "HashMap::insert")]
     for f in fb.all("lib"):
         if f.derived:
             continue
@@ -347,13 +383,16 @@ def run(ctx):
             if c in HASH_ITER:
                 owner = f.name.split("::{closure")[0]
                 ctx.inst("C12-deterministic", "%s/%s" % (owner, c.rsplit("::", 1)[-1]))
-                if owner not in ALLOW:
+                if owner not in ALLOW and known_fns and owner not in known_fns:
+                    ctx.undecided("C12-deterministic", "%s/%s" % (owner, c.rsplit("::", 1)[-1]),
+                                  "%s (a function that does not exist on the pinned tree) iterates a hash container (%s)" % (owner, c), where_of(f, t))
+                elif owner not in ALLOW:
                     ctx.report("C12-deterministic", "%s/%s" % (owner, c.rsplit("::", 1)[-1]),
                                "%s iterates a hash container (%s); its order is not proved irrelevant" % (owner, c),
                                where_of(f, t))
     # sink check for the export iteration: eval_import_set's Direct arm collects, eval_import extends a HashMap
     if not ext:
-        ctx.report("C12-deterministic", "eval_import/sink", "the merged bindings are not accumulated in a map "
+        ctx.undecided("C12-deterministic", "eval_import/sink", "the merged bindings are not accumulated in a map "
                    "(order-insensitive sink missing)", where_of(ei))
     for b, t in ei.calls():
         if callee_matches(t, "Iterator::next") and False:
